@@ -72,8 +72,9 @@ def build(reg, src, evaluator=True, verify_evaluator=True):
     reg.assumed_calls.update({
         'merge_projections': 'opaque', 'has_none': Bool, 'compile_expr': 'opaque', 'chain_adverbs': 'nonnull',
         'self._backend.is_number': Bool, 'is_empty': Bool, 'self._backend.kg_asarray': 'nonnull', 'is_list': Bool,
+        'self._compiled_for': Bool,      # admission test on the arguments of compiled code (its body: C05's structural obligation)
     })
-    reg.pure_calls |= {'self._backend.is_number', 'is_empty'}
+    reg.pure_calls |= {'self._backend.is_number', 'is_empty', 'self._compiled_for'}
     for k in ('safe_eq', 'in_map'):
         reg.fn(T + k, inline=True)
     for k in ('_get_op_fn',):
